@@ -93,6 +93,51 @@ let parse_act toks =
   | ["limit_depth"; n] -> BMatch (MLimitDepth (i n)) | ["limit_bytes"; n] -> BMatch (MLimitBytes (i n)) | ["check_bytes"; n] -> BMatch (MCheckBytes (i n))
   | _ -> failwith ("act " ^ String.concat " " toks)
 
+
+(* ---------- surface S-expressions (spec side only) ---------- *)
+type tok = LP | RP | Atom of string
+let tokenize s =
+  let toks = ref [] and buf = Buffer.create 16 in
+  let flush () = if Buffer.length buf > 0 then (toks := Atom (Buffer.contents buf) :: !toks; Buffer.clear buf) in
+  String.iter (fun ch -> match ch with
+    | '(' -> flush (); toks := LP :: !toks
+    | ')' -> flush (); toks := RP :: !toks
+    | ' ' | '\t' -> flush ()
+    | c -> Buffer.add_char buf c) s;
+  flush (); List.rev !toks
+exception Not_classical
+let rec nest mk = function
+  | [] -> raise Not_classical
+  | [_] -> raise Not_classical            (* seq<A> / sor<A> with one argument are not generated as classical *)
+  | [a; b] -> mk a b
+  | a :: tl -> mk a (nest mk tl)
+let rec parse_sexp names toks =
+  match toks with
+  | LP :: Atom h :: tl ->
+    let rec args acc toks = match toks with
+      | RP :: tl -> (List.rev acc, tl)
+      | LP :: _ -> let (e, tl) = parse_sexp names toks in args (`E e :: acc) tl
+      | Atom a :: tl -> args (`A a :: acc) tl
+      | [] -> failwith "sexp: eof" in
+    let (a, tl) = args [] tl in
+    let es () = List.map (function `E e -> e | `A _ -> failwith "sexp: expr expected") a in
+    let bytes () = List.map (function `A x -> n_of_int (int_of_string x) | `E _ -> failwith "sexp: byte expected") a in
+    let one1 () = match es () with [e] -> e | l -> nest (fun a b -> SSeq (a, b)) l in
+    let e = match h with
+      | "any" -> SAny | "eof" -> SEof | "success" -> SSuccess | "failure" -> SFailure
+      | "one" -> SOne (bytes ()) | "not_one" -> SNotOne (bytes ())
+      | "range" -> (match bytes () with [lo; hi] -> SRange (lo, hi) | _ -> failwith "range")
+      | "string" -> SString (bytes ())
+      | "seq" -> nest (fun a b -> SSeq (a, b)) (es ())
+      | "sor" -> nest (fun a b -> SSor (a, b)) (es ())
+      | "star" -> SStar (one1 ()) | "plus" -> SPlus (one1 ()) | "opt" -> SOpt (one1 ())
+      | "at" -> SAt (one1 ()) | "not_at" -> SNotAt (one1 ())
+      | "ref" -> (match a with [`A nmx] -> (try SRef (nat_of_int (List.assoc nmx names)) with Not_found -> failwith ("ref " ^ nmx)) | _ -> failwith "ref")
+      | _ -> failwith ("sexp head " ^ h) in
+    (e, tl)
+  | _ -> failwith "sexp: ( expected"
+let sexp_of_string names s = fst (parse_sexp names (tokenize s))
+
 let () =
   let dumpfile = Sys.argv.(1) and casefile = Sys.argv.(2) in
   let fuel = nat_of_int (if Array.length Sys.argv > 3 then int_of_string Sys.argv.(3) else 3000) in
@@ -136,6 +181,30 @@ let () =
     | _ -> ()
   done with End_of_file -> ());
   close_in ic;
+  let surfs = Hashtbl.create 16 in
+  if Array.length Sys.argv > 4 then begin
+    let ic = open_in Sys.argv.(4) in
+    (try while true do
+      let l = input_line ic in
+      (* SURF gid rootnode name:node,name:node | root sexp | def sexp | def sexp ... *)
+      match String.split_on_char '|' l with
+      | hd :: rootsx :: defs ->
+        (match split_ws hd with
+         | "SURF" :: gid :: rootnode :: rest ->
+           let pairs = match rest with
+             | [p] when p <> "-" -> List.map (fun kv -> match String.split_on_char ':' kv with [k; v] -> (k, int_of_string v) | _ -> failwith "surf pair") (String.split_on_char ',' p)
+             | _ -> [] in
+           let names = List.mapi (fun i (k, _) -> (k, i)) pairs in
+           (try
+             let root = sexp_of_string names rootsx in
+             let ds = List.map (sexp_of_string names) (List.filter (fun x -> String.trim x <> "") defs) in
+             Hashtbl.replace surfs gid (int_of_string rootnode, List.map (fun (_, v) -> nat_of_int v) pairs, ds, root)
+           with Not_classical -> Printf.printf "TIE %s notclassical\n" gid)
+         | _ -> ())
+      | _ -> ()
+    done with End_of_file -> ());
+    close_in ic
+  end;
   let n = Hashtbl.length nodes in
   let g = List.init n (fun i -> try Hashtbl.find nodes i with Not_found -> failwith ("missing node " ^ string_of_int i)) in
   let beh fam r =
@@ -143,6 +212,23 @@ let () =
     | Some b -> b
     | None -> fam_default fam (try Hashtbl.find named r with Not_found -> false) in
   let ipos p = (int_of_n p.pbyte, int_of_n p.pline, int_of_n p.pcol) in
+  let tie_ok = Hashtbl.create 16 in
+  Hashtbl.iter (fun gid (rootnode, names, ds, root) ->
+    let ok = structure_tie (nat_of_int 60) g names ds (nat_of_int rootnode) root in
+    Hashtbl.replace tie_ok gid ok;
+    Printf.printf "TIE %s %d\n" gid (if ok then 1 else 0)) surfs;
+  let spec_done = Hashtbl.create 1000 in
+  List.iter (fun (gid, _root, _cfgs, inp) ->
+    match Hashtbl.find_opt surfs gid with
+    | Some (_, _, ds, rootx) when not (Hashtbl.mem spec_done (gid, inp)) ->
+      Hashtbl.replace spec_done (gid, inp) ();
+      let s = unhex inp in
+      let bytes = List.init (String.length s) (fun i -> n_of_int (Char.code s.[i])) in
+      (match peg_fn (nat_of_int 2000) ds rootx bytes with
+       | None -> Printf.printf "SPEC %s %s ?\n" gid inp
+       | Some None -> Printf.printf "SPEC %s %s F\n" gid inp
+       | Some (Some rest_) -> Printf.printf "SPEC %s %s T %d\n" gid inp (String.length s - List.length rest_))
+    | _ -> ()) (List.rev !runs);
   List.iter (fun (gid, root, cfgs, inp) ->
     let (fam0, ctl0, a, m, eol) =
       match String.split_on_char '.' cfgs with
